@@ -109,11 +109,21 @@ Proof.
   apply round_ctx_guard; [intros; apply round_ctx_callback; auto|]. exact H.
 Qed.
 
+(* a callback either emits one callback event or (unknown agent / market) fails the run *)
+Lemma callback_from_emit (P : sim -> Prop) :
+  (forall s e, P s -> P (fail s e)) ->
+  (forall s a kind r hold sw run, P s -> P (emit s (EvCallback a kind r hold sw run))) ->
+  forall s aid kind r mkid, P s -> P (callback s aid kind r mkid).
+Proof.
+  intros Hf He s aid kind r mkid H. unfold callback. destruct (find_agent aid (s_agents s)); [|apply Hf; auto].
+  destruct (find_mkt mkid (s_markets s)); [|apply Hf; auto]. apply He; auto.
+Qed.
+
 Section Lift.
 Variable P : sim -> Prop.
 Hypothesis H_fail : forall s e, P s -> P (fail s e).
 Hypothesis H_emit : forall s e, obs_event e -> P s -> P (emit s e).
-Hypothesis H_callback : forall s a kind r hold sw run, P s -> P (emit s (EvCallback a kind r hold sw run)).
+Hypothesis H_callback : forall s aid kind r mkid, P s -> P (callback s aid kind r mkid).
 Hypothesis H_boundary : forall s e, boundary_event e -> P s -> P (flush (write s e)).
 Hypothesis H_accept_order : forall s mkid x ag mk buy p v ttlv m' rc tag,
   find_mkt mkid (s_markets s) = Some x -> add_order (mk_m x) ag mk buy p v ttlv = Ok (m', rc) ->
@@ -144,10 +154,7 @@ Lemma guard_pres s f : (forall s, P s -> P (f s)) -> P s -> P (guard s f).
 Proof. intros H Hs. unfold guard. destruct (ok s); auto. Qed.
 
 Lemma callback_pres s aid kind r mkid : P s -> P (callback s aid kind r mkid).
-Proof.
-  intros H. unfold callback. destruct (find_agent aid (s_agents s)); [|apply H_fail; auto].
-  destruct (find_mkt mkid (s_markets s)); [|apply H_fail; auto]. apply H_callback; auto.
-Qed.
+Proof. apply H_callback. Qed.
 
 Lemma before_order_effect_pres s h r : P s -> P (fst (before_order_effect s h r)).
 Proof.
@@ -223,12 +230,12 @@ Proof.
   assert (C1 : round_ctx mkid (guard s (fun s => callback s bagent 3 (RExec mk time bagent sagent bid sid p v) mkid))).
   { apply round_ctx_guard; auto. intros; apply round_ctx_callback; auto. }
   assert (H1 : P (guard s (fun s => callback s bagent 3 (RExec mk time bagent sagent bid sid p v) mkid))).
-  { apply guard_pres; auto. intros; apply callback_pres; auto. }
+  { apply guard_pres; auto; intros; apply callback_pres; auto. }
   set (s1 := guard s _) in *.
   assert (C2 : round_ctx mkid (guard s1 (fun s => callback s sagent 3 (RExec mk time bagent sagent bid sid p v) mkid))).
   { apply round_ctx_guard; auto. intros; apply round_ctx_callback; auto. }
   assert (H2 : P (guard s1 (fun s => callback s sagent 3 (RExec mk time bagent sagent bid sid p v) mkid))).
-  { apply guard_pres; auto. intros; apply callback_pres; auto. }
+  { apply guard_pres; auto; intros; apply callback_pres; auto. }
   set (s2 := guard s1 _) in *.
   unfold guard at 1. destruct (ok s2); auto. apply fire_exec_after_pres; auto.
 Qed.
@@ -414,7 +421,7 @@ Section Whole.
 Variable P : sim -> Prop.
 Hypothesis H_fail : forall s e, P s -> P (fail s e).
 Hypothesis H_emit : forall s e, obs_event e -> P s -> P (emit s e).
-Hypothesis H_callback : forall s a kind r hold sw run, P s -> P (emit s (EvCallback a kind r hold sw run)).
+Hypothesis H_callback : forall s aid kind r mkid, P s -> P (callback s aid kind r mkid).
 Hypothesis H_boundary : forall s e, boundary_event e -> P s -> P (flush (write s e)).
 Hypothesis H_accept_order : forall s mkid x ag mk buy p v ttlv m' rc tag,
   find_mkt mkid (s_markets s) = Some x -> add_order (mk_m x) ag mk buy p v ttlv = Ok (m', rc) ->
